@@ -526,6 +526,43 @@ def c12(tier, replay=None):
             nch += 1
     total += len(cdocs); total_ok += nch
     log("[C12 character classes] documents %d ok %d" % (len(cdocs), nch))
+    # the class "over-long line" at the limit: a line of exactly 2048 characters is no defect wherever it occurs; one of 2049
+    # is reported once (CIF_OVERLENGTH_LINE, on that line) and accepted as it is.  Contexts: a bare value, a quoted value,
+    # a comment, the first / a middle / the last line of a text field, a middle / the last line of a triple-quoted string,
+    # the last line of the file without terminator; LF, CR LF and CR
+    ldocs = []
+    for n in (2047, 2048, 2049, 2050):
+        x = lambda k: "x" * max(k, 0)
+        forms = [("bare value", "_v " + x(n - 3), 4, x(n - 3), 0), ("quoted value", "_v '" + x(n - 5) + "'", 4, x(n - 5), 1), ("comment", "_v 1\n#" + x(n - 1), 5, "1", 0),
+                 ("first line of a text field", "_v\n;" + x(n - 1) + "\nz\n;", 5, x(n - 1) + "\nz", 1), ("middle line of a text field", "_v\n;a\n" + x(n) + "\nz\n;", 6, "a\n" + x(n) + "\nz", 1),
+                 ("last line of a text field", "_v\n;a\n" + x(n) + "\n;", 6, "a\n" + x(n), 1),
+                 ("middle line of a triple-quoted string", "_v \'\'\'a\n" + x(n) + "\nz\'\'\'", 5, "a\n" + x(n) + "\nz", 1),
+                 ("last line of a triple-quoted string", "_v \'\'\'a\n" + x(n - 3) + "\'\'\'", 5, "a\n" + x(n - 3), 1)]
+        for where, body, line, val, q in forms:
+            for eol in ("\n", "\r\n", "\r"):
+                ldocs.append((n, where, ("#\\#CIF_2.0\ndata_b\n_u 0\n%s\n_w 2\n" % body).replace("\n", eol), line, val, q, eol))
+        ldocs.append((n, "last line of the file, unterminated", "#\\#CIF_2.0\ndata_b\n_u 0\n_w 2\n_v " + x(n - 3), 5, x(n - 3), 0, "\n"))
+    nll = 0
+    for key, po, pr, leak in parse_docs(binary, [(d[2], i) for i, d in enumerate(ldocs)], chunk=20):
+        n, where, doc, line, val, q, eol = ldocs[key]
+        label = "a line of %d characters: %s (%s)" % (n, where, {"\n": "LF", "\r\n": "CR LF", "\r": "CR"}[eol])
+        problems = []
+        if po is None:
+            problems.append("cif_parse did not return: " + sanitizer_signature(leak or ""))
+        else:
+            errs = [(e.get("code"), e.get("line")) for e in po.get("log", []) if e.get("cb") == "error"]
+            want = [] if n <= 2048 else [(108, line)]
+            if errs != want:
+                problems.append("errors %s, documented %s" % (errs[:3], want))
+            items = ((observed_content(pr["state"]) if pr and "state" in pr else None) or {}).get("b", {}).get("items", {})
+            if po.get("rc") != 0 or items.get("_v") != {"k": "char", "t": val, "q": q} or "_u" not in items or "_w" not in items:
+                problems.append("rc %s, _v read as %s" % (po.get("rc"), json.dumps(items.get("_v"))[:80]))
+        if problems:
+            rep.violation("line length limit: %s, %s: %s" % (where, "within the limit" if n <= 2048 else "beyond the limit", re.sub(r"[0-9]+", "N", problems[0])[:50]), "%s: %s" % (label, "; ".join(problems)), {"label": label, "document_head": doc[:200], "line_length": n})
+        else:
+            nll += 1
+    total += len(ldocs); total_ok += nll
+    log("[C12 line length limit] documents %d ok %d" % (len(ldocs), nll))
     return rep.finish({"states": max(tstates, 1), "transitions": max(ttrans, 1), "traces_validated_against_impl": total_ok,
                        "documents": total, "configs": covs, "defect_classes": len(DEFECTS), "documents_per_class": dict(per_class), "exhaustive": tier != "quick",
                        "explanation": "every defect class x every admissible position among the host items x host items over the palette / presentations / separators"},
